@@ -226,8 +226,6 @@ def g_minor_fields(tier):
     set() on every path (the constructor itself goes through set())"""
     from pyvc.frames import representation_obligations
     for label, ok, det in representation_obligations("Minor", "Minor", "set", constant_fields=("_tol",)):
-        if isinstance(label, tuple) and label[1].startswith("__"):
-            continue
         yield (label, ok, det)
 
 
